@@ -108,7 +108,12 @@ func TestVerifC07(t *testing.T) {
 				x.s.SetWidthHeight(w, h)
 				trail = append(trail, fmt.Sprintf("resize %dx%d", w, h))
 			}
-			for _, b := range tk.keys {
+			// sometimes the media hook is slow and more keys arrive while the link is still being opened
+			slowHook := (tk.desc == "media" || strings.HasPrefix(tk.desc, "number")) && r.Intn(4) > 0
+			if slowHook {
+				os.Setenv("VERIF_HOOK_SLEEP_MS", "800")
+			}
+			for bi, b := range tk.keys {
 				b := b
 				if c.Guard("keymap:", desc, func() { x.s.Update(b) }) {
 					ok = false
@@ -116,11 +121,46 @@ func TestVerifC07(t *testing.T) {
 				}
 				m.key(b)
 				c.R.Evaluations++
+				if slowHook && bi == len(tk.keys)-1 && x.snap().mode == opening {
+					m.mode = "opening"
+					follow := []byte{byte('1' + r.Intn(3)), []byte{'.', '\r', '.', 'x'}[r.Intn(4)]}
+					if nl := len(linksOf(m.page().current())); nl > 0 {
+						// a number that is really shown on the highlighted item, opened inside the browser
+						follow = []byte{byte('1' + r.Intn(min(nl, 9))), '.'}
+					}
+					switch r.Intn(8) {
+					case 0:
+						follow = []byte{27, 'j'}
+					case 1:
+						follow = []byte{'j', 127, 'k', 'k'}
+					case 2:
+						follow = []byte{':', 'x', 27, byte('1' + r.Intn(2)), '.'}
+					}
+					trail = append(trail, fmt.Sprintf("while the hook is still running: %q", follow))
+					for _, fb := range follow {
+						fb := fb
+						if x.snap().mode == loading {
+							break // keys are ignored while a page loads
+						}
+						if c.Guard("keymap:", desc, func() { x.s.Update(fb) }) {
+							ok = false
+							break
+						}
+						m.key(fb)
+					}
+					c.Count("keys_while_opening", 1)
+				}
 				if !x.settle(30 * time.Second) {
 					fail("wedged", "the interface did not settle after key %#x of %s (mode %s)", b, tk.desc, modeName(x.snap().mode))
 					ok = false
 					break
 				}
+				if m.mode == "opening" {
+					m.mode, m.buf = "normal", "" // the hook has exited
+				}
+			}
+			if slowHook {
+				os.Unsetenv("VERIF_HOOK_SLEEP_MS")
 			}
 			if !ok {
 				break
